@@ -112,7 +112,7 @@ TABLE = {
     "C16": dict(
         technique="scalable-family generation (enumerated units and ordered pairs, Hypothesis-composed triples, repetition families) with deterministic work oracles: Python call events (nesting families) and line events (repetition families) under the pycparser package with doubling-ratio and second-difference tests, executed machine instructions of a fresh interpreter under valgrind for large inputs; creeping and long-input CPU-time tests for the lexer regexes",
         text="All single nesting units and ordered pairs of 46 expression, 14 statement, 9 declarator and 7 tag-body units, Hypothesis-drawn triples and 62 repetition families (7 of them growing in two dimensions) are parsed at doubling sizes; the number of pycparser-internal call / line events must at most double (x2.3 + slack) per doubling and, over four doubling sizes, show no quadratic component (second differences). Work inside single C-level operations is measured in executed instructions at k and 4k for 9 (quick) / 18 (thorough) families: at most 8 % of the work at 4k may be in excess of linear growth. 36 adversarial literal and white-space families are timed for the lexer (creeping from 2 units; 64-512 and 2 000-16 000 characters). No family member is followed beyond 16x its event allowance or 15 s of user-mode CPU time. Complete over the enumerated units; only the lexer part uses time, with wide margins, CPU time and re-measurement.",
-        note="Trusted: event counting by package directory; valgrind instruction counts (reproducible to 0.001 %); lexer timing thresholds (0.5 s for <= 64 units of an escape run, > 3x per doubling twice in a row above 20 ms). The exponential re-parse of a compound literal inside the type name of a compound literal is a known finding (F30) and excluded, as is the k^2 cost of k array suffixes (F34).",
+        note="Trusted: event counting by package directory; valgrind instruction counts (reproducible to 0.001 %); lexer timing thresholds (0.5 s for <= 64 units of an escape run, > 3x per doubling twice in a row above 20 ms) and the 15 s CPU budget per family member are hints only: each is re-decided by instruction counts before it is reported. The exponential re-parse of a compound literal inside the type name of a compound literal is a known finding (F30) and excluded, as is the k^2 cost of k array suffixes (F34).",
         ref="DESIGN.md section 4, C16",
     ),
     "C04": dict(
